@@ -6,7 +6,8 @@
      net.IP of 4 or 16 bytes, or another net.Addr whose String() may or may not parse to an IP);
      a nil IP makes the handler return at once (a pipe in a test);
    - the GeoIP lookups (CC, and ASN unless the country is "unk"): an external database, a Section
-     variable; a failing lookup makes the handler return at once;
+     variable about which nothing is assumed; a failing lookup leaves the country / ASN unknown (the
+     pinned code returned at once on it - closing the connection before any deadline; fixed);
    - isIPv4 := originalDstIP.To4() != nil, the family of the PHANTOM, used only for the statistics;
    - everything after that does not look at the addresses: the handler model of coq/C04.
    Definitions only. *)
@@ -43,22 +44,19 @@ Section Entry.
   Variable geo_cc : bytes -> option bytes.   (* GeoIP.CC(ip): None = the lookup returned an error *)
   Variable geo_asn : bytes -> option N.      (* GeoIP.ASN(ip) *)
 
-  Definition geo_lookup (ip : bytes) : option (bytes * N) :=
-    match geo_cc ip with
-    | None => None
-    | Some cc => if bytes_eqb cc cc_unk then Some (cc, 0%N)
-                 else match geo_asn ip with None => None | Some a => Some (cc, a) end
-    end.
+  (* a failing lookup does not end the connection: the country is then unknown ("": no per-ASN
+     statistics), the ASN 0 *)
+  Definition geo_lookup (ip : bytes) : bytes * N :=
+    let cc := match geo_cc ip with Some cc => cc | None => [] end in
+    (cc, if bytes_eqb cc cc_unk then 0%N else match geo_asn ip with Some a => a | None => 0%N end).
 
   Inductive entry := EReject | EAccept (k : skey).
 
   Definition conn_entry (peer : raddr) (phantom : bytes) : entry :=
     match remote_ip peer with
     | None => EReject
-    | Some ip => match geo_lookup ip with
-                 | None => EReject
-                 | Some (cc, asn) => EAccept {| k_asn := asn; k_cc := cc; k_v4 := is_v4 phantom |}
-                 end
+    | Some ip => let '(cc, asn) := geo_lookup ip in
+                 EAccept {| k_asn := asn; k_cc := cc; k_v4 := is_v4 phantom |}
     end.
 
   Variable wrap : tid -> bytes -> wres.
@@ -77,6 +75,10 @@ Section Entry.
       end
     end.
 End Entry.
+
+(* `ms := rand.Int63n(5000) + 5000; timeout := ms * time.Millisecond`: the classification deadline in
+   milliseconds as a function of the draw r (rand.Int63n(5000) returns 0 <= r < 5000) *)
+Definition deadline_of_draw (r : N) : N := (r + 5000)%N.
 
 (* ------------------------------------------------------------------ the statistics updates of the handler model *)
 
